@@ -71,12 +71,13 @@ func main() {
 	}
 	var reports []fileReport
 	for _, p := range pkgs {
+		atomicVars := atomicallyAccessed(p)
 		for i, f := range p.Syntax {
 			name := p.CompiledGoFiles[i]
 			if strings.HasSuffix(name, "_test.go") || strings.HasSuffix(name, ".pb.go") {
 				continue
 			}
-			r := &rewriter{fset: p.Fset, info: p.TypesInfo, own: own, pkg: p.Types, rules: map[string]int{}}
+			r := &rewriter{fset: p.Fset, info: p.TypesInfo, own: own, pkg: p.Types, rules: map[string]int{}, atomicVars: atomicVars}
 			r.file(f)
 			if len(r.rules) == 0 {
 				continue
@@ -114,13 +115,51 @@ func main() {
 	}
 }
 
+// atomicallyAccessed finds the package-level variables of plain types (int64,
+// uint32, unsafe.Pointer ...) whose address is handed to a sync/atomic function
+// somewhere in the package: they are synchronisation state as much as an
+// atomic.Int64 is and are reset per execution like one.
+func atomicallyAccessed(p *packages.Package) map[types.Object]bool {
+	out := map[types.Object]bool{}
+	for _, f := range p.Syntax {
+		ast.Inspect(f, func(n ast.Node) bool {
+			call, ok := n.(*ast.CallExpr)
+			if !ok {
+				return true
+			}
+			sel, ok := call.Fun.(*ast.SelectorExpr)
+			if !ok {
+				return true
+			}
+			id, ok := sel.X.(*ast.Ident)
+			if !ok {
+				return true
+			}
+			pn, ok := p.TypesInfo.Uses[id].(*types.PkgName)
+			if !ok || pn.Imported().Path() != "sync/atomic" || len(call.Args) == 0 {
+				return true
+			}
+			if u, ok := call.Args[0].(*ast.UnaryExpr); ok && u.Op == token.AND {
+				if vid, ok := u.X.(*ast.Ident); ok {
+					if o := p.TypesInfo.Uses[vid]; o != nil && o.Parent() == p.Types.Scope() {
+						out[o] = true
+					}
+				}
+			}
+			return true
+		})
+	}
+	return out
+}
+
 type rewriter struct {
-	fset  *token.FileSet
-	info  *types.Info
-	own   map[string]bool
-	pkg   *types.Package
-	rules map[string]int
-	n     int
+	atomicVars map[types.Object]bool
+	fset       *token.FileSet
+	info       *types.Info
+	own        map[string]bool
+	pkg        *types.Package
+	rules      map[string]int
+	n          int
 
 	// decisions taken on the original tree, keyed by node
 	makeChan  map[*ast.CallExpr]bool
@@ -385,7 +424,7 @@ func (r *rewriter) globals(f *ast.File) (specs []*ast.ValueSpec) {
 			vs := sp.(*ast.ValueSpec)
 			hit := false
 			for _, n := range vs.Names {
-				if o := r.info.Defs[n]; o != nil && n.Name != "_" && syncState(o.Type(), 0) {
+				if o := r.info.Defs[n]; o != nil && n.Name != "_" && (syncState(o.Type(), 0) || r.atomicVars[o]) {
 					hit = true
 				}
 			}
